@@ -30,5 +30,7 @@ func main() {
 	vrun.Main(map[string]vrun.Check{
 		"C10": {Level: "model_checking", Run: wrap(mempool.RunC10)},
 		"C12": {Level: "model_checking", Run: wrap(mempool.RunC12)},
+		// internal: the race-detector child of the C10 thorough tier (this command built with -race)
+		"C10-stress": {Level: "other", Run: mempool.RunStressChild},
 	})
 }
